@@ -732,7 +732,11 @@ def finish(ctx, gate, spec):
     # 2. K failures: concrete failing inputs
     if ctx.failures:
         f0 = min(ctx.failures, key=lambda f: len(f["case"]))
-        f1 = shrink(ctx, f0, relevant, budget)
+        try:
+            f1 = shrink(ctx, f0, relevant, budget)
+        except Exception as e:      # the shrinker must never cost the verdict
+            ctx.notes.append("shrinking failed (%s); the unshrunk case is reported" % str(e)[:200])
+            f1 = f0
         p = write_replay(ctx, 1, dict(kind="checker", property=ctx.prop, case=f1["case"], implementation=f1["impl"],
                                       failed_clauses=f1["clauses"], n_failing_cases=len(ctx.failures),
                                       shrunk_from=f1.get("shrunk_from"), note=f1.get("note"),
@@ -745,7 +749,11 @@ def finish(ctx, gate, spec):
             ctx.failures.append(found)
             attribute_known(ctx, findings)
         if found and ctx.failures:
-            f1 = shrink(ctx, found, relevant, budget)
+            try:
+                f1 = shrink(ctx, found, relevant, budget)
+            except Exception as e:
+                ctx.notes.append("shrinking failed (%s); the unshrunk case is reported" % str(e)[:200])
+                f1 = found
             p = write_replay(ctx, 1, dict(kind="checker", property=ctx.prop, case=f1["case"], implementation=f1["impl"],
                                           failed_clauses=f1["clauses"], found_by="search around a correspondence break",
                                           correspondence_break=ctx.mismatches[0]))
